@@ -29,6 +29,7 @@ CONSTANTS PPlace,        \* period of the lattice for arbitrary placements
           MaxTgtPts,     \* target placements of 3..MaxTgtPts centres
           PGrid,         \* period of the lattice carrying the equispaced (Grid) longitudes
           GridNs,        \* node counts of the Grid longitudes (each divides PGrid)
+          FullOffsets,   \* TRUE: offsets 0, half a step and one step; FALSE: 0 and one other
           MaxMaskCells   \* all NaN patterns when the source has <= MaxMaskCells cells
 
 VARIABLES cfg,      \* [P, src, tgt, grid]
@@ -53,7 +54,9 @@ Placements(maxn) == {x \in UNION {IncSeqs(n, 0, PPlace - 1) : n \in 3..maxn} : N
 (* equispaced longitudes of a Grid: first node (longitude_offset) at 0, half a step (when
    that is a lattice position) or one full step *)
 Step(n) == PGrid \div n
-Offsets(n) == {0, Step(n)} \cup (IF Step(n) % 2 = 0 THEN {Step(n) \div 2} ELSE {})
+Offsets(n) == IF FullOffsets
+              THEN {0, Step(n)} \cup (IF Step(n) % 2 = 0 THEN {Step(n) \div 2} ELSE {})
+              ELSE {0, IF Step(n) % 2 = 0 THEN Step(n) \div 2 ELSE Step(n)}
 GridLons == UNION {{[k \in 1..n |-> o + (k - 1) * Step(n)] : o \in Offsets(n)} : n \in GridNs}
 
 P == cfg.P
